@@ -363,16 +363,20 @@ class C06(vlib.Spec):
             "(hist.order), legacy layouts on-grid/off-grid/with gaps (hist.legacy), interval decrease + reopen with the long segment newest/oldest/middle (hist.shrink), rotation ticks (hist.tick), interval changes, "
             "reopen with probability 1/4, selects with all flag combinations; wq.stream/wq.measure: one flusher round of the real "
             "liaison write queue over mem parts tagged by segment window in all shapes of 1-3 windows x 1-3 parts (oracle only: no part "
-            "spans two windows, rows in = rows out); non-trivial = distinct case")
+            "spans two windows, rows in = rows out); wb.stream/wb.trace: one write batch through the standalone write callback's real "
+            "per-batch grouping on a real TSDB, 2-6 elements over 2-3 adjacent windows in all small arrival orders (oracle only: each "
+            "element goes to the table of the segment containing its timestamp); non-trivial = distinct case")
 
     def cases(self, rng, n):
         n_hist = max(20, n // 16)
         n_wq = max(78, n // 100)
-        return std_cases(rng, n - n_hist - n_wq) + L.wq_cases(rng, n_wq) + hist_cases(rng, n_hist)
+        n_wb = max(80, n // 100)
+        return (std_cases(rng, n - n_hist - n_wq - n_wb) + L.wq_cases(rng, n_wq) + L.wb_cases(rng, n_wb) +
+                hist_cases(rng, n_hist))
 
     def compare(self, line, go_out, lean_out):
-        if line.startswith("wq"):
-            return True  # oracle only: the write-queue flusher has no Lean model
+        if line.startswith("wq") or line.startswith("wb"):
+            return True  # oracle only: the write-queue flusher / write-callback grouping have no Lean model
         return go_out == lean_out
 
     def __init__(self):
